@@ -1564,6 +1564,83 @@ func (e *c34Env) analyse(fam, format string, s *PkgSpec, data []byte, res *c34Re
 		} else if len(x.Payload) > 0 {
 			res.TarSkipped++
 		}
+		// byte-level rpm file model (lead, signature header padded to 8, header, payload; model of rpmpack's index
+		// writer): the package must be exactly what the model writer renders from its own decoded header entries, and
+		// the Lean reader proved correct for that model (RpmHdr.readFile_file) must recover what the Go reader found
+		if len(data) <= e.segCap/4 {
+			encEntries := func(tags map[int]decode.RpmTag, order []int, region int) (string, bool) {
+				var b strings.Builder
+				n := 0
+				for i, tg := range order {
+					if i == 0 && tg == region {
+						continue
+					}
+					n++
+				}
+				fmt.Fprintf(&b, "%d", n)
+				for i, tg := range order {
+					if i == 0 && tg == region {
+						continue
+					}
+					t := tags[tg]
+					var d []byte
+					switch t.Type {
+					case 3:
+						for _, v := range t.Ints {
+							d = append(d, byte(v>>8), byte(v))
+						}
+					case 4:
+						for _, v := range t.Ints {
+							d = append(d, byte(v>>24), byte(v>>16), byte(v>>8), byte(v))
+						}
+					case 6, 8:
+						for _, sv := range t.Strs {
+							d = append(append(d, sv...), 0)
+						}
+					case 7:
+						d = t.Bin
+					default:
+						return "", false
+					}
+					fmt.Fprintf(&b, " %d %d %d %s", t.Tag, t.Type, t.Count, wire.H(string(d)))
+				}
+				return b.String(), true
+			}
+			sigE, ok1 := encEntries(x.Sig, x.SigOrder, 62)
+			hdrE, ok2 := encEntries(x.Hdr, x.HdrOrder, 63)
+			if ok1 && ok2 {
+				res.TarCompared++
+				if res.TarBy == nil {
+					res.TarBy = map[string]int{}
+				}
+				res.TarBy["rpm:file:compared"]++
+				res.Checks = append(res.Checks, "rpmfile", "rpmfileread")
+				ask(fmt.Sprintf("rpmfile %s %s %s %s", wire.H(x.LeadName), sigE, hdrE, wire.H(string(x.PayloadRaw))), func(ans string) {
+					got, _ := wire.UnH(ans)
+					if got != string(data) {
+						res.f04("rpm-bytes-differ-from-model", "the rpm file differs from the model's rendering of its own lead name, header entries and payload: "+c34FirstDiff(got, string(data)))
+					}
+				})
+				want := fmt.Sprintf("%s %s %s %d %d %d", wire.H(x.LeadName), sigE, hdrE, x.HeaderOffset, len(x.HeaderRaw), len(x.PayloadRaw))
+				ask("rpmfileread "+wire.H(string(data)), func(ans string) {
+					if ans != want {
+						res.f04("rpm-lean-reader-disagrees", fmt.Sprintf("the Lean rpm reader answers %.300q, the Go reader found %.300q", ans, want))
+					}
+				})
+			} else {
+				res.TarSkipped++
+				if res.TarBy == nil {
+					res.TarBy = map[string]int{}
+				}
+				res.TarBy["rpm:file:skipped-entry-type-outside-model"]++
+			}
+		} else {
+			res.TarSkipped++
+			if res.TarBy == nil {
+				res.TarBy = map[string]int{}
+			}
+			res.TarBy["rpm:file:skipped-size"]++
+		}
 		res.check(x.CpioTrailerOK, "cpio-no-trailer", "the cpio payload has no TRAILER!!! entry")
 		rest := x.CpioRest
 		if rest < 0 || rest > len(x.Payload) {
